@@ -63,3 +63,18 @@ CASES += [
     {"name": "exciton dephasings read the eigenvector matrix transposed", "kind": "mutant", "rule": "C11-I", "edits": [
         ("quantarhei/builders/aggregate_base.py", "                    Dr_a[ii] += (self.Dr[nn,nn]**2)*abs(SS[nn,ii])**4", "                    Dr_a[ii] += (self.Dr[nn,nn]**2)*abs(SS[ii,nn])**4", 1)]},
 ]
+
+ABSC = "quantarhei/spectroscopy/abscalculator.py"
+CASES += [
+    {"name": "later lines ignore the rate matrix (the repaired defect)", "kind": "mutant", "rule": "C11-J", "edits": [
+        (ABSC, "            if (relaxation_tensor is not None) or (rate_matrix is not None):\n                tr[\"gg\"] = gg[ii]", "            if relaxation_tensor is not None:\n                tr[\"gg\"] = gg[ii]", 1)]},
+    {"name": "molecule number used as a row of the eigenvector matrix (the repaired defect)", "kind": "mutant", "rule": "C11-J", "edits": [
+        (ABSC, "            for vv in AG.vibindices[kk+1]:\n                kap[kk] += numpy.abs(SS[vv,n+1])**2", "            kap[kk] += numpy.abs(SS[kk+1,n+1])**2", 1)]},
+    {"name": "participation summed with a comprehension over the state table", "kind": "twin", "edits": [
+        (ABSC, "            for vv in AG.vibindices[kk+1]:\n                kap[kk] += numpy.abs(SS[vv,n+1])**2", "            for vv in list(AG.vibindices[kk+1]):\n                kap[kk] = kap[kk] + numpy.abs(SS[vv,n+1])**2", 1)]},
+]
+
+CASES += [
+    {"name": "mock absorption calculator reads the axis in the current units (the repaired defect)", "kind": "mutant", "rule": "C11-G", "edits": [
+        ("quantarhei/spectroscopy/mockabscalculator.py", "        with energy_units(\"int\"):\n            o1 = self.oa1.data \n", "        o1 = self.oa1.data \n", 1)]},
+]
